@@ -26,7 +26,7 @@ fn main() {
     let stdout = std::io::stdout();
     // formula- and tool-level generators can meet an evaluation that does not return: their
     // output is flushed line by line so that everything before the hang is still checked
-    let line_buffered = matches!(prop, "C01" | "C04" | "C05" | "C06" | "C09" | "C10" | "C11" | "C12" | "C14" | "C15" | "C16" | "C17" | "C18");
+    let line_buffered = matches!(prop, "C01" | "C04" | "C05" | "C06" | "C09" | "C10" | "C11" | "C12" | "C13" | "C14" | "C15" | "C16" | "C17" | "C18");
     let mut out: Box<dyn Write> = if line_buffered {
         Box::new(std::io::LineWriter::new(stdout.lock()))
     } else {
